@@ -416,6 +416,7 @@ func famC18(r *Run) {
 				"to_string(@)", "not_null(_x, name)", "type(_x)", "\"日本\"", "\"_y\"", "l[*].\"日本\"",
 				"\"épices\"", "\"épices\"[0]", "\"øre\"", "\"ägare\".name", "\"ñu\"", "[*].\"épices\"[]", "[?\"ägare\"].\"ägare\".id", "\"épices\" || \"ñu\"", "length(\"épices\")",
 				"\"\"", "l[*].\"\"", "l[?\"\"]", "[name, \"\"]", "\"\" || name", "deep.\"\"", "lp[0].\"\"", "lp[*].\"\"", "{a: \"\"}", "inner.\"\"", "@.\"\"",
+				"NAME", "nAME", "naMe", "iD", "ID", "l[*].NAME", "deep.NAME", "l[?NAME]", "lp[*].nAME", "INNER.name", "inner.NAME", "dEEP.name", "[name, NAME]", "NAME || name", "l[*].nAme",
 			} {
 				r.mark("G-go-fields", text, generic)
 				og := observeSearch(text, generic)
@@ -460,6 +461,8 @@ func famC18(r *Run) {
 	}
 	famSameNameTypes(r)
 	famGoNumbers(r)
+	famTypedSliceErrors(r)
+	famOneShotStructs(r)
 	for n := 0; n <= 4; n++ {
 		arr := make([]interface{}, n)
 		for i := range arr {
